@@ -38,6 +38,11 @@ D_SCHEMA = {"name": "LS", "base": "schema", "fields": [{"name": "a", "type": {"k
 D_DC = {"name": "LD", "base": "dataclass", "fields": [{"name": "a", "type": {"k": "leaf", "o": "int"}},
                                                        {"name": "c", "type": {"k": "leaf", "o": "float"}, "f": {"plain_default": {"v": {"t": "float", "v": "0.5"}}}}]}
 
+# data classes that restrict themselves through options of their own: inside a combinator they stay as restricted as alone
+D_NEC = {"name": "LN", "base": "schema", "options": {"no_explicit_cast": True}, "fields": [{"name": "a", "type": {"k": "leaf", "o": "int"}}]}
+D_MAXP = {"name": "LM", "base": "schema", "options": {"max_params": 1}, "fields": [{"name": "a", "type": {"k": "leaf", "o": "int"}},
+                                                                                     {"name": "b", "type": {"k": "leaf", "o": "str"}, "f": {"plain_default": {"v": ""}}}]}
+
 LEAVES = [
     {"k": "leaf", "o": "int"}, {"k": "leaf", "o": "int"}, {"k": "leaf", "o": "float"}, {"k": "leaf", "o": "str"}, {"k": "leaf", "o": "str"},
     {"k": "leaf", "o": "bool"}, {"k": "leaf", "o": "none"}, {"k": "leaf", "o": "none"}, {"k": "leaf", "o": "bytes"}, {"k": "leaf", "o": "decimal"},
@@ -49,7 +54,7 @@ LEAVES = [
     {"k": "tuplev", "a": {"k": "leaf", "o": "int"}}, {"k": "dict", "key": {"k": "leaf", "o": "str"}, "val": {"k": "leaf", "o": "int"}},
     {"k": "lit", "v": [1, "a"]}, {"k": "lit", "v": [None]}, {"k": "lit", "v": [True]},
     {"k": "enum", "e": "Num"}, {"k": "enum", "e": "Color"}, {"k": "enum", "e": "Plain"},
-    {"k": "data", "d": D_SCHEMA}, {"k": "data", "d": D_DC},
+    {"k": "data", "d": D_SCHEMA}, {"k": "data", "d": D_DC}, {"k": "data", "d": D_NEC}, {"k": "data", "d": D_MAXP},
     # rules whose only check is `contains` (no keyword constraint, no item type): a value of their origin type is NOT yet a value of the rule
     {"k": "con", "o": "list", "c": {}, "contains": {"k": "leaf", "o": "int"}, "m": "class"},
     {"k": "con", "o": "list", "c": {}, "contains": {"k": "con", "o": "int", "c": {"gt": 0}}, "min_contains": 2, "m": "annotate"},
@@ -439,3 +444,26 @@ def campaign(ctx):
                         except HarnessError:
                             ctx.label("grid_case_refused")
     ctx.extra["staged_union_grid_exhaustive"] = True
+    # data classes restricted by options of their own, beside every kind of partner, in both orders, every combinator, under the
+    # caller's option sets - with inputs that break exactly the restriction: enumerated completely
+    partners = [{"k": "leaf", "o": "none"}, {"k": "leaf", "o": "date"}, {"k": "leaf", "o": "int"}, {"k": "leaf", "o": "str"},
+                {"k": "dict", "key": {"k": "leaf", "o": "str"}, "val": {"k": "leaf", "o": "int"}}, {"k": "data", "d": D_DC}]
+    breaking = [{"t": "dict", "v": [["a", "1"]]}, {"t": "dict", "v": [["a", 1]]}, {"t": "dict", "v": [["a", 1], ["b", "x"]]}, {"t": "dict", "v": [["a", {"t": "float", "v": "2.0"}]]},
+                {"t": "dict", "v": [["a", 1], ["b", "x"], ["c", 3]]}, {"t": "dict", "v": []}, '{"a": 1}']
+    n = 0
+    for d_ in (D_NEC, D_MAXP):
+        for partner in partners:
+            for comb in ("union", "xor"):
+                for args in ([{"k": "data", "d": d_}, partner], [partner, {"k": "data", "d": d_}]):
+                    for v in breaking:
+                        for o in ({}, {"no_data_loss": True}, {"collect_errors": True}):
+                            idx += 1
+                            if idx % ctx.nshards != ctx.shard:
+                                continue
+                            ctx.ev()
+                            n += 1
+                            try:
+                                body({"comb": comb, "args": list(args), "mode": "op", "value": v, "options": o})
+                            except HarnessError:
+                                ctx.label("grid_case_refused")
+    ctx.extra["self_restricted_data_class_grid_cases_in_this_shard"] = n
